@@ -292,6 +292,28 @@ theorem abs_moveTailOne {r : RingHead} {buf : List α} {x : α} {q : List α} (h
       have := hq (i + 1) (by simp; omega)
       simpa using this
 
+/-- releasing one slot and storing a fresh value in it (repaired `igris::ring::pop`):
+the released slot is none of the slots that still hold the queue -/
+theorem abs_pop_set {r : RingHead} {buf : List α} {x : α} {q : List α} (d : α)
+    (h : Abs r buf (x :: q)) : Abs (ringMoveTailOne r) (buf.set r.tail.toNat d) q := by
+  obtain ⟨-, wf', hb', hl', hq'⟩ := abs_moveTailOne h
+  obtain ⟨⟨h1, h2⟩, hb, hl, hq⟩ := h
+  refine ⟨wf', by simpa using hb', hl', ?_⟩
+  intro i hi
+  have hT := moveTailOne_tail r h2
+  unfold RingHead.cnt at hl
+  simp only [List.length_cons] at hl
+  have hlt := cntN_lt h1 h2
+  have key : r.tail.toNat ≠ ((ringMoveTailOne r).tail.toNat + i) % (ringMoveTailOne r).size.toNat := by
+    simp only [hT, moveTailOne_size]
+    rw [slot_next_tail h2 (by omega)]
+    have := slot_inj (p := r.tail.toNat) (S := r.size.toNat) (i := 0) (j := i + 1)
+      (by omega) (by omega) (by omega) (by omega)
+    rw [Nat.add_zero, Nat.mod_eq_of_lt h2] at this
+    exact this
+  rw [List.getElem?_set_ne key]
+  exact hq' i hi
+
 theorem abs_nonempty {r : RingHead} {buf q : List α} (h : Abs r buf q) (hq : q ≠ []) :
     ringEmpty r = false := by
   obtain ⟨wf, -, hl, -⟩ := h
@@ -857,11 +879,12 @@ theorem push_abs {t : TRing α} {q : List α} (x : α) (h : Abs t.r t.buf q)
   exact ⟨⟨ringMoveHeadOne t.r, t.buf.set t.r.head.toNat x⟩, by simp [push, poke, hlen], by simp,
     abs_moveHeadOne (abs_set_head x h) hroom (List.getElem?_set_self hlen)⟩
 
-theorem pop_abs {t : TRing α} {x : α} {q : List α} (h : Abs t.r t.buf (x :: q)) :
-    ∃ t', t.pop = some t' ∧ t'.r.size = t.r.size ∧ Abs t'.r t'.buf q := by
+theorem pop_abs {t : TRing α} {x : α} {q : List α} (d : α) (h : Abs t.r t.buf (x :: q)) :
+    ∃ t', t.pop d = some t' ∧ t'.r.size = t.r.size ∧ Abs t'.r t'.buf q := by
   have hlen : t.r.tail.toNat < t.buf.length := by
     obtain ⟨⟨h1, h2⟩, hb, -, -⟩ := h; omega
-  exact ⟨⟨ringMoveTailOne t.r, t.buf⟩, by simp [pop, hlen], by simp, (abs_moveTailOne h).2⟩
+  exact ⟨⟨ringMoveTailOne t.r, t.buf.set t.r.tail.toNat d⟩, by simp [pop, hlen], by simp,
+    abs_pop_set d h⟩
 
 /-- constructor: ring size = buffer size = `bufsize + 1`, empty -/
 theorem mk'_abs (dflt : α) (n : Nat) (hn : n + 1 < 2 ^ 32) :
@@ -1414,8 +1437,8 @@ theorem forEach_spec (r : RingHead) (hH : r.head.toNat < r.size.toNat) :
 
 namespace TRing
 variable {α : Type}
-theorem clear_abs : ∀ (fuel : Nat) {t : TRing α} {q : List α}, Abs t.r t.buf q → q.length ≤ fuel →
-    ∃ t', clear fuel t = some t' ∧ t'.r.size = t.r.size ∧ Abs t'.r t'.buf []
+theorem clear_abs (d : α) : ∀ (fuel : Nat) {t : TRing α} {q : List α}, Abs t.r t.buf q → q.length ≤ fuel →
+    ∃ t', clear d fuel t = some t' ∧ t'.r.size = t.r.size ∧ Abs t'.r t'.buf []
   | 0, t, q, h, hf => by
       have : q = [] := List.eq_nil_of_length_eq_zero (by omega)
       subst this
@@ -1424,8 +1447,8 @@ theorem clear_abs : ∀ (fuel : Nat) {t : TRing α} {q : List α}, Abs t.r t.buf
       cases q with
       | nil => exact ⟨t, by simp [clear, abs_empty h], rfl, h⟩
       | cons x q =>
-        obtain ⟨t1, e1, hs1, h1⟩ := pop_abs h
-        obtain ⟨t2, e2, hs2, h2⟩ := clear_abs fuel h1 (by simpa using hf)
+        obtain ⟨t1, e1, hs1, h1⟩ := pop_abs d h
+        obtain ⟨t2, e2, hs2, h2⟩ := clear_abs d fuel h1 (by simpa using hf)
         exact ⟨t2, by simp [clear, abs_nonempty h (by simp), e1, e2], hs2.trans hs1, h2⟩
 end TRing
 
